@@ -107,6 +107,19 @@ type c09Scn struct {
 	Max    time.Duration
 	Preset int
 	UB     bool // upper bounds of the waits are also checked (serial family)
+	// NoTimeout: no connect timeout is configured (ReconnectOptions.Timeout stays 0) although the
+	// script withholds a CONNACK: only a Disconnect / an effective cancellation ends that handshake.
+	NoTimeout bool
+	// Race: Disconnect lands before the CONNACK of a handshake that the peer accepts. Disconnect
+	// cancels the handshake (reconnclient.go:92-100) while the CONNACK is being delivered; Go's
+	// select takes either. The harness makes both ready and records which one won: that is the
+	// oracle's outcome of this iteration (accepted, or ended without CONNACK).
+	Race bool
+}
+
+// timeout: WithTimeout is passed (needed for "no CONNACK until the timeout" and for keep-alive)
+func (s *c09Scn) timeout() bool {
+	return !s.NoTimeout && (s.has(c09NoConnack) || s.has(c09EndKeepAlive))
 }
 
 func (s *c09Scn) desc() map[string]interface{} {
@@ -115,7 +128,7 @@ func (s *c09Scn) desc() map[string]interface{} {
 		sc = append(sc, o.desc())
 	}
 	d := map[string]interface{}{"script": sc, "base_ms": s.Base.Milliseconds(), "max_ms": s.Max.Milliseconds(),
-		"connect_preset": s.Preset}
+		"connect_preset": s.Preset, "connect_timeout_configured": s.timeout()}
 	if s.Disc != nil {
 		d["disconnect_at"] = fmt.Sprintf("iteration %d, %s", s.Disc.Iter, c09PhaseName[s.Disc.Phase])
 	}
@@ -143,7 +156,9 @@ func (s *c09Scn) coq() string {
 	return fmt.Sprintf("(mkScenario %s %s %s %s)", cListInline(sc), disc, cancel, cBool(s.Post))
 }
 
-func (s *c09Scn) key() string { return s.coq() + fmt.Sprint(s.Base, s.Max, s.Preset, s.UB) }
+func (s *c09Scn) key() string {
+	return s.coq() + fmt.Sprint(s.Base, s.Max, s.Preset, s.UB, s.NoTimeout)
+}
 
 // spec of the waits on the Go side (only used to place a stop inside a wait and to size
 // observation windows; the judgement is made in Coq)
@@ -249,8 +264,10 @@ type c09Run struct {
 	nOpen   int
 	dialT   []time.Time
 	refT    map[int]time.Time
+	stopT   map[string]time.Time // when a stop was known to have landed
 	clis    []*c09Cli
 	silent  map[int]bool
+	active  map[int]bool // ConnState reported StateActive: Connect on transport k was accepted
 	nWrites map[int]int
 	notes   []string
 
@@ -280,6 +297,9 @@ func (r *c09Run) lands(st *c09Stop, i, ph int) bool {
 
 func (r *c09Run) doCancel() {
 	r.cancel()
+	r.mu.Lock()
+	r.stopT["stop-cancel"] = time.Now()
+	r.mu.Unlock()
 	r.logEv(c09Ev{Kind: "stop-cancel"})
 }
 
@@ -329,6 +349,9 @@ func (r *c09Run) landDisconnect() {
 			}
 			time.Sleep(200 * time.Microsecond)
 		}
+		r.mu.Lock()
+		r.stopT["stop-disc"] = time.Now()
+		r.mu.Unlock()
 		r.logEv(c09Ev{Kind: "stop-disc"})
 		close(logged)
 	})
@@ -485,7 +508,12 @@ func (r *c09Run) dial(ctx context.Context) (*mqtt.BaseClient, error) {
 	c.cli.ConnState = func(st mqtt.ConnState, err error) {
 		switch st {
 		case mqtt.StateActive:
-			c.aOnce.Do(func() { go r.onActive(i, c) })
+			c.aOnce.Do(func() {
+				r.mu.Lock()
+				r.active[k] = true
+				r.mu.Unlock()
+				go r.onActive(i, c)
+			})
 		case mqtt.StateDisconnected:
 			c.dOnce.Do(func() { close(c.disconn) })
 		}
@@ -526,6 +554,21 @@ func (r *c09Run) onWrite(i int, c *c09Cli, pkt []byte) error {
 			c.conn.finish()
 		default:
 			c.conn.send(connackOK)
+			if s.Race && r.discCalled() {
+				// let the reader take the CONNACK before Write returns, so that both the CONNACK and the
+				// cancelled context are ready when Connect reaches its select
+				deadline := time.Now().Add(time.Second)
+				for time.Now().Before(deadline) {
+					c.conn.memConn.mu.Lock()
+					n := len(c.conn.memConn.in)
+					c.conn.memConn.mu.Unlock()
+					if n == 0 {
+						break
+					}
+					time.Sleep(100 * time.Microsecond)
+				}
+				time.Sleep(500 * time.Microsecond)
+			}
 		}
 	case typ == 0xC0:
 		if !silent {
@@ -536,21 +579,24 @@ func (r *c09Run) onWrite(i int, c *c09Cli, pkt []byte) error {
 }
 
 type c09Obs struct {
-	log     []c09Ev
-	elapsed []int64 // ns between the failure point of iteration i-1 and the i-th dial (i >= 1); -1 unknown
-	notes   []string
-	hung    bool
+	lastAccepted bool // Connect on the last transport handed out was accepted
+	refT         map[int]time.Time
+	stopT        map[string]time.Time
+	log          []c09Ev
+	elapsed      []int64 // ns between the failure point of iteration i-1 and the i-th dial (i >= 1); -1 unknown
+	notes        []string
+	hung         bool
 }
 
 const c09Timeout = 400 * time.Millisecond // WithTimeout when the script needs CONNACK / PINGRESP timeouts
 const c09Ping = 20 * time.Millisecond
 
 func c09Exec(s *c09Scn, presets []c09Preset) *c09Obs {
-	r := &c09Run{scn: s, refT: map[int]time.Time{}, silent: map[int]bool{}, nWrites: map[int]int{},
+	r := &c09Run{scn: s, refT: map[int]time.Time{}, stopT: map[string]time.Time{}, silent: map[int]bool{}, active: map[int]bool{}, nWrites: map[int]int{},
 		discDone: make(chan struct{}), fpOnce: map[int]bool{}}
 	r.rc = &mqtt.RetryClient{}
 	ropts := []mqtt.ReconnectOption{mqtt.WithRetryClient(r.rc), mqtt.WithReconnectWait(s.Base, s.Max)}
-	if s.has(c09NoConnack) || s.has(c09EndKeepAlive) {
+	if s.timeout() {
 		ropts = append(ropts, mqtt.WithTimeout(c09Timeout))
 	}
 	if s.has(c09EndKeepAlive) {
@@ -608,6 +654,14 @@ func c09Exec(s *c09Scn, presets []c09Preset) *c09Obs {
 	cancel()
 	r.mu.Lock()
 	o.log = append([]c09Ev{}, r.log...)
+	o.lastAccepted = r.nOpen > 0 && r.active[r.nOpen-1]
+	o.refT, o.stopT = map[int]time.Time{}, map[string]time.Time{}
+	for k, v := range r.refT {
+		o.refT[k] = v
+	}
+	for k, v := range r.stopT {
+		o.stopT[k] = v
+	}
 	o.notes = append(o.notes, r.notes...)
 	for i := 1; i < len(r.dialT); i++ {
 		if t, ok := r.refT[i-1]; ok {
@@ -626,6 +680,15 @@ func (o *c09Obs) lateStop(s *c09Scn) bool {
 	check := func(st *c09Stop, kind string) bool {
 		if st == nil || st.Phase != c09PWait {
 			return false
+		}
+		// the redial timer is started after the failure point: it cannot fire before refT + wait. A
+		// stop known to have landed before that moment landed inside the wait (or before it, which
+		// is the same to the select); later than that, the timer may have fired first or together
+		// with it, and Go's select may take either.
+		if ref, ok := o.refT[st.Iter]; ok {
+			if t, ok := o.stopT[kind]; ok && !t.Before(ref.Add(s.specWait(st.Iter))) {
+				return true
+			}
 		}
 		d := 0
 		for _, e := range o.log {
@@ -718,10 +781,10 @@ func c09Placements(script []c09Out) []int {
 }
 
 func c09Timing(s *c09Scn) {
-	s.Base, s.Max = 20*time.Millisecond, 80*time.Millisecond
+	s.Base, s.Max = 20*time.Millisecond, 70*time.Millisecond // max deliberately not base*2^n
 	if (s.Disc != nil && s.Disc.Phase == c09PWait) || (s.Cancel != nil && s.Cancel.Phase == c09PWait) {
 		// a stop has to land inside a wait: longer waits
-		s.Base, s.Max = 100*time.Millisecond, 400*time.Millisecond
+		s.Base, s.Max = 100*time.Millisecond, 350*time.Millisecond
 	}
 }
 
@@ -755,8 +818,25 @@ func c09Stopped(script []c09Out, refusedCode *int) []*c09Scn {
 			success = true
 		}
 	}
+	// a CONNACK withheld with no connect timeout configured: possible where the stop itself ends the handshake
+	noTimeoutOK := sc[n].Kind == c09NoConnack
+	for _, o := range sc[:n] {
+		if o.Kind == c09NoConnack || o.Kind == c09EndKeepAlive {
+			noTimeoutOK = false
+		}
+	}
 	for _, ph := range c09Placements(sc) {
-		out = append(out, &c09Scn{Script: sc, Disc: &c09Stop{n, ph}})
+		early := ph == c09PDial || ph == c09PConnect
+		if early && sc[n].connected() {
+			// Disconnect cancels the handshake (reconnclient.go:92-100) while the CONNACK is arriving:
+			// either may win; the model takes the winner from the oracle, the harness observes it
+			out = append(out, &c09Scn{Script: sc, Disc: &c09Stop{n, ph}, Race: true})
+		} else {
+			out = append(out, &c09Scn{Script: sc, Disc: &c09Stop{n, ph}})
+			if early && noTimeoutOK {
+				out = append(out, &c09Scn{Script: sc, Disc: &c09Stop{n, ph}, NoTimeout: true})
+			}
+		}
 		// cancellation: effective only before the first success, and (to stay deterministic) not
 		// while a connect that is going to be accepted is in flight
 		switch {
@@ -775,6 +855,9 @@ func c09Stopped(script []c09Out, refusedCode *int) []*c09Scn {
 				Cancel: &c09Stop{n, ph}, Disc: &c09Stop{n + 1, c09PDial}})
 		default:
 			out = append(out, &c09Scn{Script: sc, Cancel: &c09Stop{n, ph}, Post: true})
+			if early && noTimeoutOK {
+				out = append(out, &c09Scn{Script: sc, Cancel: &c09Stop{n, ph}, Post: true, NoTimeout: true})
+			}
 		}
 	}
 	if sc[n].Kind == c09EndGraceful {
@@ -813,6 +896,10 @@ func c09Generate(tier string, seed int64) (serial []*c09Scn, par []*c09Scn) {
 				c09Timing(s)
 			}
 			s.Preset = len(par) % 4
+			if s.NoTimeout {
+				// presets without a keep-alive option: Timeout defaults to PingInterval = KeepAlive seconds
+				s.Preset = []int{0, 2}[len(par)%2]
+			}
 			par = append(par, s)
 		}
 	}
@@ -857,10 +944,10 @@ func c09Generate(tier string, seed int64) (serial []*c09Scn, par []*c09Scn) {
 		enum(full, 2)
 		enum(full, 3)
 		enum(small, 4)
-		sample(full, 4, 3000)
-		sample(full, 5, 1200)
-		sample(full, 6, 600)
-		sample(small, 8, 300)
+		sample(full, 4, 2000)
+		sample(full, 5, 800)
+		sample(full, 6, 400)
+		sample(small, 8, 200)
 	}
 	// back-off only: long runs of failures with varied base/max (including base > max)
 	for c, bm := range [][2]time.Duration{{20 * ms, 80 * ms}, {30 * ms, 30 * ms}, {50 * ms, 20 * ms}, {15 * ms, 100 * ms}} {
@@ -949,11 +1036,37 @@ func runC09(cfg *runCfg) error {
 	stopKinds := map[string]int{}
 	lens := map[string]int{}
 	retried, hung := 0, 0
+	raceAccepted, raceAborted := 0, 0
+	dropped := 0
 	for _, r := range results {
 		s, o := r.s, r.o
-		cases = append(cases, fmt.Sprintf("(mkCase (mkConfig (%d)%%Z (%d)%%Z conn%d true) %s %s %s %s)",
-			int64(s.Base), int64(s.Max), s.Preset, s.coq(), o.coq(), o.elapsedCoq(), cBool(s.UB)))
-		d := s.desc()
+		if o.lateStop(s) {
+			// three attempts, each time the stop reached the client only after the wait had ended
+			// (starved machine): the run shows nothing about the phase it was meant for
+			dropped++
+			continue
+		}
+		es := s // the scenario as it really went: the winner of a handshake race is the oracle's outcome
+		winner := ""
+		if s.Race {
+			winner = "CONNACK (accepted)"
+			if !o.lastAccepted {
+				winner = "Disconnect (handshake aborted, no CONNACK taken)"
+				cp := *s
+				cp.Script = append([]c09Out{}, s.Script...)
+				cp.Script[len(cp.Script)-1] = c09Out{Kind: c09NoConnack}
+				es = &cp
+				raceAborted++
+			} else {
+				raceAccepted++
+			}
+		}
+		cases = append(cases, fmt.Sprintf("(mkCase (mkConfig (%d)%%Z (%d)%%Z conn%d true %s true) %s %s %s %s)",
+			int64(s.Base), int64(s.Max), s.Preset, cBool(s.timeout()), es.coq(), o.coq(), o.elapsedCoq(), cBool(s.UB)))
+		d := es.desc()
+		if winner != "" {
+			d["handshake_race_won_by"] = winner
+		}
 		d["observed"] = o.desc()
 		d["elapsed_ms_before_each_redial"] = func() []float64 {
 			var x []float64
@@ -979,6 +1092,9 @@ func runC09(cfg *runCfg) error {
 		}
 		if s.Post {
 			stopKinds["disconnect-after-exit"]++
+		}
+		if s.NoTimeout {
+			stopKinds["connack-withheld-without-connect-timeout"]++
 		}
 		lens[fmt.Sprint(len(s.Script))]++
 		if r.try > 1 {
@@ -1014,6 +1130,8 @@ func runC09(cfg *runCfg) error {
 	m.Distribution["script_lengths"] = keys(lens)
 	m.Distribution["scenarios_repeated_because_a_stop_landed_late"] = retried
 	m.Distribution["serial_upper_bound_scenarios"] = len(serial)
+	m.Distribution["scenarios_dropped_after_three_late_stops"] = dropped
+	m.Distribution["handshake_race_disconnect_vs_connack"] = map[string]int{"connack_won": raceAccepted, "disconnect_won": raceAborted}
 	var ls []string
 	for k := range lens {
 		ls = append(ls, k)
